@@ -152,8 +152,10 @@ CHECKS["C06"] = dict(
 CHECKS["C20"] = dict(
     category="proof", design_ref="DESIGN.md section 2 / C20",
     technique="Lean 4 theorems over an executable model + differential correspondence (byte-exact messages and share vectors) + implementation-side relation oracle",
-    text=("Proved for every PRG, label list, m >= 1, 0 < p <= 2^256 and y < 2^256: vole sessions never error, r and u stay "
-          "below p and u - r = x*y (mod p); the bytes32 and packed-vector round trips and the exact panic bound; Fx shares XOR "
+    text=("Proved for every PRG, row stream, start position and every HISTORY of admissible Mul calls on one Sender/Receiver "
+          "pair (0 < p <= 2^256, y < 2^256, empty vectors included): no call errs, every call satisfies r, u < p and "
+          "u - r = x*y (mod p), each call's messages are the packed vectors of that call alone, the state carries only the OT "
+          "stream position (C20_vole_session*); histories of Fx/Fxk calls over one OT (C20_fx_session); the bytes32 and packed-vector round trips and the exact panic bound; Fx shares XOR "
           "to a*b and Fxk shares to [b=1]*s, FromOT(ToOT(l)) = l, for every OT satisfying OtSpec. Tied to /repo on every "
           "run: real vole over real IKNP (ideal and CO base OT, labels recovered by a shadow IKNPSender) reproduced byte for "
           "byte by the model, real bmr.Fx*/ToOT/FromOT, and relation oracles on the real outputs over the length x modulus "
@@ -222,15 +224,21 @@ CHECKS["C15"] = dict(
 
 CHECKS["C03"] = dict(
     category="translation_validation", design_ref="DESIGN.md section 2 / C03",
-    technique="Lean 4 reference interpreter (with proved operator/control laws) as oracle + typed program generator + differential validation of the real Compile/Compute",
-    text=("Lean big-step semantics of the MPCL subset (Model/Mpcl.lean) with 37 theorems: every operator is the BitVec operator "
+    technique="Lean 4 reference interpreter (with proved operator/control laws) as oracle + Lean SSA-level evaluator of the real compiler's SSA step lists (three-way tie source = SSA = circuit with stage localisation) + typed program generator + differential validation of the real Compile/Compute",
+    text=("Lean big-step semantics of the MPCL subset (Model/Mpcl.lean) with 40 theorems: every operator is the BitVec operator "
           "of the declared width (signed division truncates toward zero, signed % is |a| mod |b| as the annotated tests fix, "
-          "arithmetic shift, casts), early-return elimination, loop unrolling, fuel irrelevance, 30 shipped @Test vectors "
-          "and the deviation witnesses evaluated in the model. The real compiler.Compile + circuit.Compute is compared with "
+          "arithmetic shift, casts), early-return elimination, loop unrolling for EVERY trip count (for = n-fold composition of "
+          "the body, both directions), fuel irrelevance, 30 shipped @Test vectors and the deviation witnesses evaluated in the "
+          "model; `ssaEval` (37 SSA opcodes) evaluates the real compiler's dumped SSA (15k programs, 2.8M steps per thorough "
+          "run, 0 unsupported opcodes) and must agree with both the source interpreter and the real circuit; "
+          "C03_ssa_lower_correct_partial: on the straight-line + - & | ^ / cast fragment ssaEval(lower p) = run p for a Lean "
+          "model `lower` of ssagen. The real compiler.Compile + circuit.Compute is compared with "
           "the interpreter on generated programs (exhaustive inputs where the inputs have <= 12..16 bits, else "
           "boundary-biased), on README/testsuite programs paired with hand-written ASTs, and every shipped @Test vector is "
           "run through the real compiler."),
-    note=TB + "Partial: the front end is validated per program and input, not proved; no verified back end / SSA-level tie; "
+    note=TB + "Partial: the front end is validated per program and input, not proved; SSA->circuit is modelled with ideal builders (C07) "
+              "and a Lean constant-wires rule; the proved AST->SSA agreement covers the straight-line fragment and a hand-written "
+              "`lower`; the real AST->SSA and SSA->circuit stages are tied differentially, per program and input; "
               "known compiler deviations are probed in tagged classes and matched narrowly; division by zero, constant "
               "folding (C12), pointers/slices/strings/builtins are outside the grammar.")
 
@@ -279,10 +287,12 @@ CHECKS["C18"] = dict(
 
 CHECKS["C12"] = dict(
     category="proof", design_ref="DESIGN.md section 2 / C12",
-    technique="Lean 4 executable model of mpa.Int (int64 small path on BitVec 64, arithmetic large path) and of the folding path (literal -> Constant -> cast -> Unary/Binary.evalConst -> constant wires) with operator theorems for all widths <= 64 + differential correspondence on the mpa API, folded SSA constants and circuit results + implementation-side oracle (constant variant vs run-time variant of each expression)",
-    text=("For - * & | ^ &^ << and unary -, folding equals the circuit mod 2^N for every N <= 64 and all operand constants "
-          "(for + / % >> and the comparisons under named hypotheses), also proved end to end on the program text for "
-          "non-negative operands; no model panic branch is reachable for N <= 64. The full statement is refuted by "
+    technique="Lean 4 executable model of mpa.Int (int64 small path on BitVec 64, arithmetic large path) and of the folding path (literal -> Constant -> cast -> Unary/Binary.evalConst -> constant wires) with operator theorems for EVERY width (large path N > 64 proved at the level result = (x op y) mod 2^N and tied by a boundary-biased mpa API correspondence for N in 65..130) + differential correspondence on the mpa API, folded SSA constants and circuit results + implementation-side oracle (constant variant vs run-time variant of each expression)",
+    text=("C12_fold_eq_circuit: for every integer operator, signedness and EVERY width, fold = circuit under four named "
+          "hypotheses that are exactly the open value-level root causes (operand image, div/mod operands exact non-negative, "
+          "shifted operand extended, Cmp sees typed values); + - * & | ^ &^ << and unary - need none of them for N <= 64 and "
+          "only the image hypothesis above; also proved end to end on the program text for non-negative operands; no crash "
+          "at any width. The full statement is refuted by "
           "root-cause witnesses that the oracle re-derives on the real compiler on every run (signed / % >> on masked "
           "operands, comparison sign taken from value size, Add carry loss, result typed by value size, T(-v) not extended; "
           "for N > 64 an add/sub compiler panic, a signed divider at operand size, wrong compare sign, logical shift; "
@@ -290,8 +300,9 @@ CHECKS["C12"] = dict(
           "model-predicts-it). Oracle: for generated (op, type intN/uintN N in 1..130, values, 13/5 consumers) compile the "
           "constant and the run-time variant, confirm folding in the SSA, compare Circuit.Compute outputs; compiler panics "
           "are recovered and reported."),
-    note=TB + "Theorems are about Model/Fold.lean and Model/Mpa.lean tied by line-by-line correspondence; N > 64 and non-return "
-              "consumers are covered by correspondence and oracle only; builder semantics taken from C07.")
+    note=TB + "Theorems are about Model/Fold.lean and Model/Mpa.lean tied by line-by-line correspondence and cover all widths; "
+              "consumers other than `return` and the result-type findings remain oracle/witness only; builder semantics taken "
+              "from C07; the divider padding constant is checked against the source on every run.")
 
 NOT_YET = {}
 
